@@ -15,6 +15,8 @@ def sat_full_query(pid, n, pat, pref, permc, cfg, dyn, timeout=900, fills=None):
     q.extra_cbmc = ['--property-filter-not-used']
     q.extra_cbmc = []
     q.defs['VH_SAT_MEMORY_ONLY'] = None
+    if fills:
+        q.defs['VH_ABORT_OK'] = None   # too-small estimates: the diagnostic abort is the documented outcome
     q.group = 'whole driver, bit-precise memory checks n=%d' % n
     q.no_ptr_overflow = False
     return q
